@@ -17,7 +17,9 @@ func usage() {
   reliable p2p-free   <trace.ndjson> <window> <n> <seed> <runs>
   reliable wp-replay  <behaviours.ndjson> <trace.ndjson> <window> <n>
   reliable wp-free    <trace.ndjson> <window> <n> <seed> <runs>
-environment: VERIF_WORKERS=w1,w2,w3 (model worker names, wp modes)`)
+  reliable p2pch-replay / p2pch-free: as p2p with chunking on (WithReliableChunking(1024))
+environment: VERIF_WORKERS=w1,w2,w3 (model worker names, wp modes)
+             VERIF_CHUNKS=2,1,2     (chunks per message, p2pch modes; n = number of entries)`)
 	os.Exit(2)
 }
 
@@ -39,13 +41,18 @@ func main() {
 		usage()
 	}
 	workerNames = strings.Split(envOr("VERIF_WORKERS", "w1,w2"), ",")
+	for _, c := range strings.Split(envOr("VERIF_CHUNKS", ""), ",") {
+		if c != "" {
+			chunkPattern = append(chunkPattern, atoi(c))
+		}
+	}
 	switch os.Args[1] {
-	case "p2p-replay", "wp-replay":
+	case "p2p-replay", "wp-replay", "p2pch-replay":
 		if len(os.Args) != 6 {
 			usage()
 		}
 		replay(os.Args[1][:len(os.Args[1])-7], os.Args[2], os.Args[3], atoi(os.Args[4]), atoi(os.Args[5]))
-	case "p2p-free", "wp-free":
+	case "p2p-free", "wp-free", "p2pch-free":
 		if len(os.Args) != 7 {
 			usage()
 		}
@@ -153,7 +160,7 @@ func replay(kind, behavioursPath, tracePath string, window, n int) {
 		stats.Behaviours++
 		f := h.newFlow(kind, window, n, false)
 		f.emit(abs{"e": "new", "kind": kind, "w": window, "n": n, "order": b[0].M["t"]})
-		if kind == "p2p" {
+		if kind == "p2p" || kind == "p2pch" {
 			err = f.startP2P(fmt.Sprint(b[0].M["t"]))
 		} else {
 			var initial []string
